@@ -248,7 +248,9 @@ impl TopicActor {
 
     fn delete(&mut self) -> Result<(), DeleteError> {
         if self.deleted {
-            return Ok(());
+            // The topic has already been deleted: this request lost the race against
+            // the one that deleted it.
+            return Err(DeleteError::Closed);
         }
 
         // Mark the topic as deleted.
